@@ -463,7 +463,7 @@ def run(F, R, tier):
     if not absorbed:
         R.soft_broken("R4: no absorbed pole found (anchor tan_alpha in src/MSSMNoFV/gm2_2loop.cpp vanished?)")
 
-    _series_branches(F, R)
+    R.guard(_series_branches, F, R)
 
     lo, hi = GUARD_BAND
     R.rule("R3", "tolerance of every pole guard >= %.0e (below that the rounding error of the cancelling numerator, amplified "
